@@ -96,7 +96,38 @@ Definition is_env_op (o : op) : bool :=
 Definition is_load_op (o : op) : bool :=
   match o with
   | LoadDefaults _ | LoadOverrides _ | LoadCollection _ | LoadSystem | LoadUser
-  | LoadProject | LoadRuntime => true
+  | LoadProject | LoadRuntime
+  | LoadDefaultsD _ | LoadOverridesD _ | LoadCollectionD _ | LoadSystemD | LoadUserD
+  | LoadProjectD | LoadRuntimeD | Merge => true
+  | _ => false
+  end.
+
+(** A load call with [merge=False] supplies the same level as the plain one. *)
+Definition undefer (o : op) : op :=
+  match o with
+  | LoadDefaultsD t => LoadDefaults t
+  | LoadOverridesD t => LoadOverrides t
+  | LoadCollectionD t => LoadCollection t
+  | LoadSystemD => LoadSystem
+  | LoadUserD => LoadUser
+  | LoadProjectD => LoadProject
+  | LoadRuntimeD => LoadRuntime
+  | _ => o
+  end.
+
+Definition is_deferred (o : op) : bool :=
+  match o with
+  | LoadDefaultsD _ | LoadOverridesD _ | LoadCollectionD _ | LoadSystemD | LoadUserD
+  | LoadProjectD | LoadRuntimeD => true
+  | _ => false
+  end.
+
+(** After deferred loads the view is meaningful only once something merged:
+    the script must then end with [merge()] or [load_shell_env()]. *)
+Definition settled (ops : list op) : bool :=
+  negb (existsb is_deferred ops) ||
+  match last ops Merge with
+  | Merge | LoadShellEnv _ => true
   | _ => false
   end.
 
@@ -108,11 +139,12 @@ Fixpoint loads_then_env (ops : list op) : bool :=
   | [o] => is_load_op o || is_env_op o
   | o :: rest => is_load_op o && loads_then_env rest
   end.
-Fixpoint wf_script (ops : list op) : bool :=
+Fixpoint wf_order (ops : list op) : bool :=
   match ops with
-  | o :: rest => if is_set_op o then wf_script rest else loads_then_env ops
+  | o :: rest => if is_set_op o then wf_order rest else loads_then_env ops
   | [] => true
   end.
+Definition wf_script (ops : list op) : bool := wf_order ops && settled ops.
 
 Record supplied := mkSupplied {
   s_defaults : tree; s_collection : tree; s_system : tree; s_user : tree; s_project : tree;
@@ -136,7 +168,8 @@ Definition located (fs : fsys) (loaded : bool) (loc : option string)
 
 Definition has_op (f : op -> bool) (ops : list op) : bool := existsb f ops.
 
-Definition supplied_of (fs : fsys) (i : init_args) (ops : list op) : supplied :=
+Definition supplied_of (fs : fsys) (i : init_args) (ops0 : list op) : supplied :=
+  let ops := map undefer ops0 in
   let d := last_of (fun o => match o with LoadDefaults t => Some t | _ => None end) ops (i_defaults i) in
   let o := last_of (fun o => match o with LoadOverrides t => Some t | _ => None end) ops (i_overrides i) in
   let col := last_of (fun o => match o with LoadCollection t => Some t | _ => None end) ops (Node []) in
